@@ -382,7 +382,7 @@ def fee_witness(path, b, v):
     "nearest unit (lower neighbour tolerated at an exact tie)"; cond states that they are such values for the oracle's own numerators."""
     if not b['hasfee']:
         return z3.IntVal(0), z3.IntVal(0), z3.BoolVal(True), []
-    rs = [r for (_, _, r) in path.world.ties]
+    rs = [t[2] for t in path.world.ties]
     Q = b['quote']
     if len(rs) >= 2:
         r1, r2 = rs[0], rs[1]
@@ -542,16 +542,21 @@ def c09(sc, req, path):
             continue
         if i < len(sc.world.maps['bid']) and z3.is_true(z3.simplify(struct_eq(sc.world.maps['bid'][i].val, e.val))):
             continue                      # untouched: the clause is part of the assumed Inv
-        n_or = b['fee'] * b['rem_q']
-        wit = None
-        for (n_c, d_c, r_c) in path.world.ties:
-            if poly_equal(d_c, b['quote']) and poly_equal(n_c, n_or):
-                wit = r_c                 # the path's own rounding of exactly this quotient (nearest unit by the model of rust_decimal)
-        if wit is not None:
-            good = z3.And(b['acc_f'] >= 0, b['acc_f'] <= b['fee'], b['rem_f'] == wit)
+        # witnesses: the path's own roundings of (a/q)*f (nearest unit by the model of rust_decimal); the remaining obligation is linear:
+        # the fee held is that rounding, taken of exactly this bid's fee over its unspent quote
+        alts = []
+        for t in path.world.ties:
+            fac = t[3] if len(t) > 3 else None
+            if fac is not None:
+                a_c, f_c, q_c = fac
+                alts.append(z3.And(b['rem_f'] == t[2], f_c == b['fee'], q_c == b['quote'], a_c == b['rem_q']))
+        direct = tol_nearest(b['fee'], b['rem_q'], b['quote'], b['rem_f'])
+        if alts:
+            good = z3.And(b['acc_f'] >= 0, b['acc_f'] <= b['fee'], z3.Or(*alts))
+            yield refute('fee_held_is_pro_rata_of_unspent_quote', [e.present, z3.Not(good), z3.Not(direct)], kind=kind, witness=True)
         else:
-            good = z3.And(b['acc_f'] >= 0, b['acc_f'] <= b['fee'], tol_nearest(b['fee'], b['rem_q'], b['quote'], b['rem_f']))
-        yield refute('fee_held_is_pro_rata_of_unspent_quote', [e.present, z3.Not(good)], kind=kind, witness=wit is not None)
+            good = z3.And(b['acc_f'] >= 0, b['acc_f'] <= b['fee'], direct)
+            yield refute('fee_held_is_pro_rata_of_unspent_quote', [e.present, z3.Not(good)], kind=kind, witness=False)
     # a bid that leaves the book has had its whole fee paid out or returned (C01's "zero once closed"), checked in the ledger step (C01)
 
 
